@@ -465,3 +465,37 @@ CASES["C20"] = [
     ("twin: count via conditional expression", "twin", PHSDF, "                if len(list(switchee.operations())) > 1:\n                    count += 1\n", "                if not len(list(switchee.operations())) <= 1:\n                    count += 1\n", []),
     ("twin: one-alternative test spelled <= 1", "twin", DECODEF, "            if len(list(switchee.operations())) == 1:\n                continue\n", "            if len(list(switchee.operations())) <= 1:\n                continue\n", []),
 ]
+
+SNAXF = "snaxc/accelerators/snax.py"
+XDMAF = "snaxc/accelerators/snax_xdma.py"
+ALUF = "snaxc/accelerators/snax_alu.py"
+HWPEF = "snaxc/accelerators/snax_hwpe_mult.py"
+RESCALEX = "snaxc/accelerators/streamers/extensions/rescale_extension.py"
+
+CASES["C08"] = [
+    ("reintroduce F-4 (ceil(n/4) multipliers)", "mutant", GEMMX, "            mult_vals = [mult.result for _ in range(self.n)]", "            mult_vals = [mult.result for _ in range(ceil(self.n / 4))]", ["C08.tail-shape"]),
+    ("reintroduce F-6 (single value for an extension)", "mutant", XDMAF, "@revert:a6a8d57", "", ["C08.streamer-shape"]),
+    ("values: bounds and strides loops swapped", "mutant", SNAXF,
+     "                cst = arith.ConstantOp.from_int_and_width(bound, i32)\n                result.append(([cst], cst.result))\n\n            # ops for temporal strides\n            for dim, flag in enumerate(streamer.temporal_dims):\n                stride = temporal_strides[dim].data\n                if flag == StreamerFlag.Irrelevant:\n                    # Irrelevant temporal strides should be zero\n                    assert stride == 0\n                cst = arith.ConstantOp.from_int_and_width(stride, i32)\n                result.append(([cst], cst.result))\n\n            # address remap:",
+     "                cst = arith.ConstantOp.from_int_and_width(stride, i32)\n                result.append(([cst], cst.result))\n\n            # ops for temporal strides\n            for dim, flag in enumerate(streamer.temporal_dims):\n                bound = upper_bounds[dim].data\n                cst = arith.ConstantOp.from_int_and_width(bound, i32)\n                result.append(([cst], cst.result))\n\n            # address remap:", ["C08.labels"]),
+    ("fields: ptr_high dropped", "mutant", SNAXF, '            result.extend([f"{name}_ptr_low", f"{name}_ptr_high"])\n            # spatial strides\n            result.extend([f"{name}_sstride_{i}" for i in range(streamer.spatial_dim)])\n            # temporal bounds\n            result.extend([f"{name}_bound_{i}" for i in range(streamer.temporal_dim)])\n            # temporal strides\n            result.extend([f"{name}_tstride_{i}" for i in range(streamer.temporal_dim)])\n            # options\n            if any(isinstance(opt, HasAddressRemap)',
+     '            result.extend([f"{name}_ptr_low"])\n            # spatial strides\n            result.extend([f"{name}_sstride_{i}" for i in range(streamer.spatial_dim)])\n            # temporal bounds\n            result.extend([f"{name}_bound_{i}" for i in range(streamer.temporal_dim)])\n            # temporal strides\n            result.extend([f"{name}_tstride_{i}" for i in range(streamer.temporal_dim)])\n            # options\n            if any(isinstance(opt, HasAddressRemap)', ["C08.streamer-shape"]),
+    ("values: channel mask unconditional", "mutant", SNAXF, "            if any(isinstance(opt, HasChannelMask) for opt in streamer.opts):\n                if is_zero_pattern:\n                    # mask all channels such that they generate zeros\n                    c0 = arith.ConstantOp.from_int_and_width(0, i32)\n                    result.append(([c0], c0.result))\n                else:\n                    # else, set to 32b111...111 (=-1) (all enabled)\n                    n1 = arith.ConstantOp.from_int_and_width(-1, i32)\n                    result.append(([n1], n1.result))\n\n        # transpose specifications",
+     "            if True:\n                if is_zero_pattern:\n                    # mask all channels such that they generate zeros\n                    c0 = arith.ConstantOp.from_int_and_width(0, i32)\n                    result.append(([c0], c0.result))\n                else:\n                    # else, set to 32b111...111 (=-1) (all enabled)\n                    n1 = arith.ConstantOp.from_int_and_width(-1, i32)\n                    result.append(([n1], n1.result))\n\n        # transpose specifications", ["C08.streamer-shape"]),
+    ("values: transpose and broadcast merged into one loop", "mutant", SNAXF,
+     "                c0 = arith.ConstantOp.from_int_and_width(0, i32)\n                result.append(([c0], c0.result))\n\n        for operand, streamer in enumerate(self.streamer_config.data.streamers):\n            if any(isinstance(opt, HasBroadcast) for opt in streamer.opts):",
+     "                c0 = arith.ConstantOp.from_int_and_width(0, i32)\n                result.append(([c0], c0.result))\n            if any(isinstance(opt, HasBroadcast) for opt in streamer.opts):", ["C08.streamer-shape"]),
+    ("broadcast value depends on data (emitted only when broadcasting)", "mutant", SNAXF, "                else:\n                    c0 = arith.ConstantOp.from_int_and_width(0, i32)\n                    result.append(([c0], c0.result))\n\n        return result", "\n        return result", ["C08.streamer-shape"]),
+    ("rescale extension csr_length 3", "mutant", RESCALEX, "    csr_length = 4\n", "    csr_length = 3\n", ["C08.extension-tables"]),
+    ("gemmx values: csr1 dropped", "mutant", GEMMX, "                ([], csr0),  # csr0\n                ([], csr1),  # csr1\n", "                ([], csr0),  # csr0\n", ["C08.tail-shape"]),
+    ("gemmx fields: N and M swapped in the tuple only", "mutant", GEMMX, '            "K",\n            "N",\n            "M",\n            # subtractions', '            "K",\n            "M",\n            "N",\n            # subtractions', ["C08.stated-belief"]),
+    ("alu stream values: loop bound dropped", "mutant", ALUF, "            ([c0], c0.result),\n            ([loop_bound], loop_bound.result),\n        ]", "            ([loop_bound], loop_bound.result),\n        ]", ["C08.tail-shape"]),
+    ("alu hard-wired list: one entry too few", "mutant", ALUF, "            # alu mode\n            ([], c0.result),\n            # alu iterations", "            # alu iterations", ["C08.tail-shape"]),
+    ("bounds padded with 0", "mutant", SNAXF, "upper_bounds = upper_bounds + ((IntAttr(1),) * (streamer.temporal_dim - len(upper_bounds)))", "upper_bounds = upper_bounds + ((IntAttr(0),) * (streamer.temporal_dim - len(upper_bounds)))", ["C08.padding"]),
+    ("reuse collapse without the stride test", "mutant", SNAXF, "if flag == StreamerFlag.Reuse and bound > 1 and stride == 0:", "if flag == StreamerFlag.Reuse and bound > 1:", ["C08.padding"]),
+    ("gemmx: multipliers replicated under the shift's length", "mutant", GEMMX, "                    if len(mult_vals_int) == 1:\n                        mult_vals_int = (mult_vals_int[0],) * self.n", "                    if len(shift_vals_int) == self.n:\n                        mult_vals_int = (mult_vals_int[0],) * self.n", ["C08.replication"]),
+    ("launch: three values for two fields", "mutant", ALUF, "token := accfg.LaunchOp([launch_val, launch_val], self.launch_fields, setup),", "token := accfg.LaunchOp([launch_val, launch_val, launch_val], self.launch_fields, setup),", ["C08.launch"]),
+    ("twin: fields built with a comprehension instead of extend", "twin", SNAXF, '            result.extend([f"{name}_bound_{i}" for i in range(streamer.temporal_dim)])\n            # temporal strides\n            result.extend([f"{name}_tstride_{i}" for i in range(streamer.temporal_dim)])\n            # options\n            if any(isinstance(opt, HasAddressRemap)',
+     '            for i in range(streamer.temporal_dim):\n                result.append(f"{name}_bound_{i}")\n            # temporal strides\n            result += [f"{name}_tstride_{i}" for i in range(len(streamer.temporal_dims))]\n            # options\n            if any(isinstance(opt, HasAddressRemap)', []),
+    ("twin: value loop variable renamed", "twin", SNAXF, "        for operand, streamer in enumerate(self.streamer_config.data.streamers):\n            if any(isinstance(opt, TransposeExtension) for opt in streamer.opts):\n                # if we want", "        for idx, strm in enumerate(self.streamer_config.data.streamers):\n            if any(isinstance(o, TransposeExtension) for o in strm.opts):\n                # if we want", []),
+]
